@@ -26,6 +26,7 @@ class GateSock:
         self._closed = False
         self._eof = False
         self._held = False
+        self._broken_writes = False
         self.sent = bytearray()  # everything this side wrote
 
     @staticmethod
@@ -43,7 +44,7 @@ class GateSock:
 
     def send(self, data):
         data = bytes(data)
-        if self._closed:
+        if self._closed or self._broken_writes:
             raise OSError("socket closed")
         m = self.mate
         if m is None or m._closed:
@@ -99,6 +100,10 @@ class GateSock:
         with self._cv:
             self._held = False
             self._cv.notify_all()
+
+    def break_writes(self):
+        """every later send() fails although the connection still looks alive to the reader"""
+        self._broken_writes = True
 
     def eof(self):
         with self._cv:
